@@ -31,14 +31,14 @@ type hPattern struct {
 }
 
 var hPatterns = []hPattern{
-	0: {src: `(a+)(b+)?c`},                                                                 // bool-only eligible, captures stripped in the quick program
-	1: {src: `^(?:(?<o>\()|(?<-o>\))|[^()])*(?(o)(?!))$`},                                  // balancing groups
-	2: {src: `(\w+) \1`},                                                                   // back-reference (capture must survive in the quick program)
-	3: {src: `\d+`, opts: regexp2.RightToLeft},                                             // right-to-left
+	0: {src: `(a+)(b+)?c`},                                                                               // bool-only eligible, captures stripped in the quick program
+	1: {src: `^(?:(?<o>\()|(?<-o>\))|[^()])*(?(o)(?!))$`},                                                // balancing groups
+	2: {src: `(\w+) \1`},                                                                                 // back-reference (capture must survive in the quick program)
+	3: {src: `\d+`, opts: regexp2.RightToLeft},                                                           // right-to-left
 	4: {src: `(?:a|b|ab)*c`, extra: []regexp2.CompileOption{regexp2.OptionMaxBacktrackingStackSize(64)}}, // hits the stack limit on long inputs
-	5: {src: `(x+x+)+y`, timeout: 25 * time.Millisecond},                                   // catastrophic: times out
-	6: {src: `[a-f]+\d`, opts: regexp2.IgnoreCase},                                         // class with ASCII bitmap
-	7: {src: `needle\w+`},                                                                  // raw-string prefix filter
+	5: {src: `(x+x+)+y`, timeout: 25 * time.Millisecond},                                                 // catastrophic: times out
+	6: {src: `[a-f]+\d`, opts: regexp2.IgnoreCase},                                                       // class with ASCII bitmap
+	7: {src: `needle\w+`},                                                                                // raw-string prefix filter
 	8: {src: `(?<k>\w+)=(?<v>[^;]*);?`, extra: []regexp2.CompileOption{regexp2.OptionMaxCachedReplacerDataEntries(4)}},
 }
 
